@@ -58,6 +58,22 @@ CHECKS = {
    text="Ring T: 2-3 clients issuing any commands (single-key, multi-key, immediate and delayed flush over all shards, stores that trigger eviction sweeps, expiry collection) under seeded random / PCT schedules; the scheduler keeps the holder table of every shard lock and only grants a thread whose next acquire can succeed, so 'no thread can be granted, some unfinished' is an exact deadlock (reported with who waits for which lock held by whom); a step budget (20000 scheduling points, programs need < 500) reports livelock; a 30 s wall-clock watchdog reports a step that never reaches a scheduling point.",
    tech="deterministic simulation: baton scheduler with exact deadlock detection and step budget",
    note="Trusted base: the scheduler's holder table mirrors DashMap's lock protocol (read/write/try/downgrade); the OS-scheduled stress half of the quantifier is not done."),
+ "C10": dict(cat="exploration", ref="7 C10",
+   text="Ring H: the full boundary grid of header fields for every opcode 0..255 (key length x extras length x body length around key+extras, around the item limit and up to 2^32-1 x magic/data type x CAS x bytes present), fed one-shot / header-first / in small chunks to the real decoder, every decoded request executed and encoded, under overflow checks. Ring N: byzantine clients (noise, valid frames with one field replaced by an extreme, counters with extreme operands, bit flips) with random segmentation against the whole server, then silence past the idle timeout and a well-behaved client. Oracle: no panic, quiescence within the poll budget, listed-invalid frames never executed, decode buffer capacity bounded (ring H), no length-proportional allocation (counting allocator, ring N), connection released, server still serving.",
+   tech="deterministic simulation: enumerated header grid on the decoder + seeded byzantine streams on the simulated transport, counting allocator"),
+ "C17": dict(cat="exploration", ref="7 C17",
+   text="Whole server on the simulated transport for limits 1-4 and idle timeouts 1-10 s: seeded histories of 3..10 x limit connection lifecycles with overlapping arrivals, each ending by client close, close after work, quit, quitq, close mid-header, close mid-body, invalid magic, unknown opcode, oversized item then close, idle timeout (virtual time), reset or reset mid-request, with noop probes in between. Invariants at quiescence after every event: served <= limit; if any connection waits exactly limit are served; served connections answer, unserved do not. Bounded liveness after the last fault: exactly limit fresh connections are served, one more only after a slot is freed.",
+   tech="deterministic simulation: connection-lifecycle fault injection on the simulated transport with run-to-quiescence invariants and bounded liveness"),
+ "C18": dict(cat="fault_enumeration", ref="7 C18",
+   text="For every seeded pipelined stream (counter increments, stores, appends; loud and quiet) EVERY cut offset 0..=length x EVERY fault kind (orderly close, half-close, abortive reset, abortive reset while the server is blocked writing with further requests buffered, corrupted header byte, truncation followed by silence to the idle timeout) runs on a fresh whole server with an observer connection; the observer must see exactly the state after the completely sent requests (after a reset: after a prefix), well-formed answers, a released faulty connection and a serving server. The enumeration over cut points and fault kinds of each generated stream is complete; streams are sampled.",
+   tech="deterministic simulation with fault enumeration: every byte offset x fault kind per stream on the simulated transport"),
+ "C19": dict(cat="exploration", ref="7 C19",
+   text="Paired simulated runs from one seed: program P and P' with a random subset of positions switched between loud and quiet opcodes, each on a fresh identical server (ring H; 1 pair in 5 on ring N with identical segmentation), with the CAS tokens P resolved carried over literally, followed by dumps of every key under a common clock-advance schedule. Untoggled positions and all dumps (values, flags, CAS, expiry) must be answered byte-identically; toggled positions: errors identical apart from the opcode, quiet success / quiet miss silent, quiet hit payload = loud hit payload. Metamorphic; no fault dimension of its own.",
+   tech="deterministic simulation: paired (metamorphic) runs on identical simulated servers"),
+ "C20": dict(cat="exploration", ref="7 C20",
+   text="(a) deterministic configuration differential on ring N: one seeded program with one segmentation on a reference server and on servers differing only in eviction policy (none / random, unreached limit), memory limit, item size limit, connection limit, backlog, shard count, hash and victim seeds: responses byte-identical. (b) runtime flavour and thread count only change which store-step interleavings occur: sampled by ring T (C03, C04, C14, C16). (c) start-up path: cli::parser::parse + runtime_builder::create_memcrs_server executed for real over --runtime-type x --threads {1,2,8} x --eviction-policy x item size x connection limit, listeners bound to the simulated network (the simulator picks the listener for each connection), server on the OS threads / tokio runtimes runtime_builder creates (scheduling NOT owned by the simulator): only schedule-independent observations (a synchronous program's answers by value, at most connection-limit connections served, oversized set refused, one TTL probe on the real clock), reported as uncontrolled_schedule_runs.",
+   tech="deterministic simulation (configuration differential on the simulated transport) + start-up path on the simulated network with uncontrolled OS threads",
+   note="Trusted base as for ring N. Part (c) is not deterministic simulation in the strict sense: real threads, real clock; it makes only observations that cannot raise a false alarm on a slow machine (long deadline for expected answers, short settle for expected silence). The memcrsd binary over loopback, core pinning and kernel SO_REUSEPORT balancing are out of reach."),
 }
 
 def cmd(pid, tier):
